@@ -365,6 +365,23 @@ type CondInfo struct {
 	Neg  bool
 }
 
+// Edge returns the index of the successor taken when `X op Y` holds (op is token.NEQ or token.EQL), whichever
+// way the source spells the test (`x != y`, `!(x == y)`, `x == y {} else {…}`); -1 when the condition is not an
+// equality test.
+func (c *CondInfo) Edge(op token.Token) int {
+	if c == nil || (c.Op != token.NEQ && c.Op != token.EQL) || (op != token.NEQ && op != token.EQL) {
+		return -1
+	}
+	idx := 0
+	if c.Op != op {
+		idx = 1
+	}
+	if c.Neg {
+		idx = 1 - idx
+	}
+	return idx
+}
+
 // IfCond returns the comparison controlling the block's terminating If, unwrapping `!`.
 func IfCond(b *ssa.BasicBlock) (*ssa.If, *CondInfo) {
 	if len(b.Instrs) == 0 {
@@ -719,3 +736,36 @@ func ThroughNew(v ssa.Value) ssa.Value {
 
 // CondOf is the condition of an If seen through extracted predicates.
 func CondOf(iff *ssa.If) ssa.Value { return ThroughNew(iff.Cond) }
+
+// UsesOf lists the instructions that use v; a use as an argument of a function that did not exist at review
+// time is replaced by the uses of the corresponding parameter inside that function.
+func UsesOf(v ssa.Value) []ssa.Instruction {
+	var out []ssa.Instruction
+	seen := map[ssa.Value]bool{}
+	var walk func(v ssa.Value)
+	walk = func(v ssa.Value) {
+		if seen[v] || v.Referrers() == nil {
+			return
+		}
+		seen[v] = true
+		for _, ref := range *v.Referrers() {
+			if ci, ok := ref.(ssa.CallInstruction); ok {
+				if sc := ci.Common().StaticCallee(); sc != nil && IsNew(sc) {
+					handled := false
+					for i, a := range ci.Common().Args {
+						if a == v && i < len(sc.Params) {
+							walk(sc.Params[i])
+							handled = true
+						}
+					}
+					if handled {
+						continue
+					}
+				}
+			}
+			out = append(out, ref)
+		}
+	}
+	walk(v)
+	return out
+}
